@@ -103,8 +103,7 @@ def rawGetSlot (s : Stk) (j : Int) : Except Fault Val :=
 
 /-- `stack.swap` -/
 def swap (s : Stk) (i j : Int) : Except Fault Stk :=
-  if Gen.swap_ok_i { i := i, ulen := s.ulen } then .ok s
-  else if Gen.swap_ok_j { j := j, ulen := s.ulen } then .ok s
+  if Gen.swap_reject { i := i, j := j, ulen := s.ulen } then .ok s
   else do
     let i := wrap64 (i + 1)
     let j := wrap64 (j + 1)
